@@ -458,3 +458,57 @@ pub fn sink_rows(logv: &[Ev], tag: &str) -> (usize, Option<Vec<Vec<i64>>>) {
     rows.sort();
     (published, if published > 0 { Some(rows) } else { None })
 }
+
+/// Fault injection: panics when replica `replica` of its block is handed its `k`-th data element.
+#[derive(Clone)]
+pub struct PanicAt<Op: Operator> {
+    prev: Op,
+    replica: u64,
+    k: usize,
+    seen: usize,
+    mine: bool,
+    coord: C3,
+}
+
+impl<Op: Operator> Display for PanicAt<Op> {
+    fn fmt(&self, f: &mut std::fmt::Formatter<'_>) -> std::fmt::Result {
+        write!(f, "{} -> PanicAt", self.prev)
+    }
+}
+
+impl<Op: Operator> Operator for PanicAt<Op> {
+    type Out = Op::Out;
+    fn setup(&mut self, metadata: &mut ExecutionMetadata) {
+        self.prev.setup(metadata);
+        self.mine = metadata.global_id == self.replica;
+        let c = metadata.coord;
+        self.coord = (c.block_id, c.host_id, c.replica_id);
+    }
+    fn next(&mut self) -> StreamElement<Op::Out> {
+        let e = self.prev.next();
+        if self.mine && matches!(e, StreamElement::Item(_) | StreamElement::Timestamped(..)) {
+            self.seen += 1;
+            if self.seen == self.k {
+                log(Ev::Note("fault-fired", vec![self.coord.0 as i64, self.coord.1 as i64, self.coord.2 as i64]));
+                panic!("injected user-function failure");
+            }
+        }
+        e
+    }
+    fn structure(&self) -> BlockStructure {
+        self.prev
+            .structure()
+            .add_operator(OperatorStructure::new::<Op::Out, _>("PanicAt"))
+    }
+}
+
+pub fn panic_at<Op: Operator + 'static>(s: Stream<Op>, replica: u64, k: usize) -> Stream<PanicAt<Op>> {
+    s.add_operator(|prev| PanicAt {
+        prev,
+        replica,
+        k,
+        seen: 0,
+        mine: false,
+        coord: (0, 0, 0),
+    })
+}
